@@ -92,7 +92,7 @@ Definition tail_c (x : str) (env : bool) : grammar := [rule_of_line L_content_f]
 Definition DT (env : bool) : list str := n_field :: defs (tail_c [] env).
 
 Lemma defs_tail_c x env : defs (tail_c x env) = defs (tail_c [] env).
-Proof. destruct env; reflexivity. Qed.
+Proof. destruct env; vm_compute; reflexivity. Qed.
 
 Lemma DT_struct env : forallb (fun d => str_in d (struct_names env)) (n_ws :: DT env) = true.
 Proof. destruct env; vm_compute; reflexivity. Qed.
@@ -175,7 +175,7 @@ Proof.
     unfold wf_root. rewrite HD. apply subT. destruct env; reflexivity.
   - (* references *)
     unfold wf_refs. rewrite HD, !grammar_refs_app, Wr. cbn [app]. rewrite !forallb_app.
-    repeat (apply andb_true_iff; split).
+    apply andb_true_iff; split; [|apply andb_true_iff; split].
     + exact (forallb_impl _ _ _ subA (refs_fields _ _ Hall)).
     + cbn [grammar_refs flat_map]. rewrite app_nil_r, refs_rule_refs.
       apply forallb_forall. intros r Hr. apply subN. apply str_in_In. exact Hr.
